@@ -34,6 +34,8 @@ CHECKS = {
          "An unknown record (4 opcodes x 4 lengths) at every legal position (top level, inside chunks, summary boundaries), at all positions at once, and tails on every extensible record kind must leave everything the Go readers report unchanged.", TB, "DESIGN §4 C11"),
  "C12": (MC, "exhaustive enumeration of legal layouts of fixed logical contents by the reference encoder, read by all Go readers",
          "Chunk partitions (incl. empty chunks), per-chunk compression, schema/channel placement, all 720 summary group orders and all 256 optional-section subsets (all pairs of dimensions in quick, full product for small contents in thorough): every reader must return the logical content.", TB, "DESIGN §4 C12"),
+ "C13": (MC, "exhaustive map-range permutation (overlay rewrite regenerated from the tree) + exhaustive instance interleavings under a cooperative scheduler (preemption-bounded) + GOMAXPROCS subprocess sweep; free-running -race pass as supporting evidence",
+         "(a) every permutation of every map range reached by the workloads (deviation bound 2) must leave the output bytes unchanged; (b) every interleaving of 2 [3] independent writer/lexer instances at API-call, sink-write and source-read granularity with at most 2 preemptions must give each instance its solo result; (c) 45 configurations give the same digest under GOMAXPROCS 1, 2, 4, 16; (d) 16 free-running goroutines under the race detector (a different technique, supporting only).", TB + " The map-range rewrite is assumed semantics-preserving for any fixed order; interleavings finer than library-to-caller calls are only covered by (d).", "DESIGN §4 C13"),
  "C14": (FE, "deviation-bounded exhaustive sink/attachment-source fault enumeration on the real writer",
          "Every destination Write call of every workload x configuration is failed in turn (error / short count / ErrShortWrite, transient and sticky): the call it hits must return an error, nothing may panic, accepted bytes must stay a prefix of the fault-free output (checked after every write); every attachment source failure/early/late end must be reported.", TB + " Contract-violating sinks (short count, nil error) are out of scope.", "DESIGN §4 C14"),
  "C15": (FE, "exhaustive delivery-policy and source-error enumeration on the real lexer/iterators/Info",
